@@ -13,10 +13,11 @@ git -C /repo worktree add -q --detach "$WT" HEAD || exit 2
 cd "$WT"
 cp "$SRC/$K.demo_test.go" "$PKG/seed_${PROP}_${K}_demo_test.go"
 DEMO_CLEAN=fail; DEMO_MUT=pass; BUILD=fail; SUITE=fail
-$GO test -vet=off -count=1 -run 'Seed|C[0-9][0-9]' "./$PKG/" >/tmp/seedverify-$PROP-$K.clean.log 2>&1 && DEMO_CLEAN=pass
+RUNRE=$(grep -o "^func Test[A-Za-z0-9_]*" "$SRC/$K.demo_test.go" | sed 's/func //' | paste -sd'|')
+$GO test -vet=off -count=1 -run "^($RUNRE)\$" "./$PKG/" >/tmp/seedverify-$PROP-$K.clean.log 2>&1 && DEMO_CLEAN=pass
 if git apply "$SRC/$K.patch.diff"; then
   $GO build ./... >/dev/null 2>&1 && BUILD=ok
-  $GO test -vet=off -count=1 -run 'Seed|C[0-9][0-9]' "./$PKG/" >/tmp/seedverify-$PROP-$K.mut.log 2>&1 || DEMO_MUT=fail
+  $GO test -vet=off -count=1 -run "^($RUNRE)\$" "./$PKG/" >/tmp/seedverify-$PROP-$K.mut.log 2>&1 || DEMO_MUT=fail
   rm -f "$PKG/seed_${PROP}_${K}_demo_test.go"
   out=$($GO test -vet=off -count=1 ./... 2>&1); if ! echo "$out" | grep -E "^(--- FAIL|FAIL)" | grep -v -E "TestTaskRepeat|TestTable|^FAIL$|FAIL\s+github.com/mycoria/mycoria/(mgr|m)\s" >/dev/null; then SUITE=pass; fi
   echo "$out" | grep -E "^--- FAIL" | head -5
